@@ -160,6 +160,20 @@ pub fn c10(tier: &str, seed: u64) -> Vec<Case> {
                 let owned = std::panic::catch_unwind(move || Packet::parse(&rb).ok().and_then(|q| q.answers.into_iter().next().map(|r| text::rr(&r.into_owned())))).unwrap_or(None);
                 if class_of(&out) == "ok" && owned.as_deref() != Some(&rr_text[..]) { c = c.fail("layout-read", format!("{}: the owned copy of the parsed record holds other field values than the encoding", KIND_NAMES[kind])); }
             }
+            // ... and serialising the values that were READ (not only values built from parts) yields the encoding they were
+            // read from, byte for byte, borrowed and owned alike
+            if class_of(&out) == "ok" {
+                let rb = reference.clone();
+                let again = std::panic::catch_unwind(move || Packet::parse(&rb).ok().map(|q| {
+                    let mut o = Packet::new_reply(q.id());
+                    for r in q.answers.iter() { o.answers.push(r.clone().into_owned()); }
+                    (q.build_bytes_vec().ok(), o.build_bytes_vec().ok())
+                })).unwrap_or(None);
+                match again {
+                    Some((Some(a), Some(b))) if a == reference && b == reference => {}
+                    _ => { c = c.fail("layout-written", format!("{}: the values read from the RFC encoding are not written back as that encoding", KIND_NAMES[kind])); }
+                }
+            }
             v.push(c);
             // (3) the same with a preceding record whose names the encoder may point into (receivers must
             // accept compression pointers in any embedded name)
